@@ -70,6 +70,14 @@ def ll_hole(x):
     return float(-0.5 * np.sum((x - 1.0) ** 2) / 4.0)
 
 
+def ll_sliver(x):
+    """Support on a thin slab of the prior (u0 < 0.1 under the affine prior): whole warm-up batches fall outside it."""
+    x = np.asarray(x, dtype=float)
+    if x[0] >= -8.0:
+        return -np.inf
+    return float(-0.5 * np.sum((x + 9.0) ** 2) / 4.0)
+
+
 def ll_weak(x):
     """Nearly flat likelihood: the schedule jumps from beta=0 to 1 in one step."""
     x = np.asarray(x, dtype=float)
